@@ -110,6 +110,20 @@ theorem lane_zero_sel (D : Nat) (a b out : List K) :
   refine ⟨?_, ?_, ?_, ?_⟩ <;> intro c hc <;>
     simp [laneAdd, laneEq, laneBool, laneMulAdd] at hc <;> aesop
 
+/-- **Const / Public tables** accept every row: the table has no constraint at all; the value that
+goes on the bus is the row's main-trace cell (`sendInteractions`), which is why a Const row's value is
+not tied to the circuit's constant (finding F4). -/
+theorem send_accepts_every_row (D lanes : Nat) (ml pl : List K) :
+    ∀ c ∈ sendConstraints D lanes ml pl, c = 0 := by
+  intro c hc; cases hc
+
+/-- The value limbs a Const / Public row sends are exactly its main-trace cells. -/
+theorem send_value_is_main_cell (D lanes : Nat) (ml pl : List K) (lane : Nat) (h : lane < lanes) :
+    (sendInteractions D lanes ml pl).getD lane ([], 0) =
+      (vget pl (lane * 2 + 1) :: seg ml (lane * D) D, vget pl (lane * 2)) := by
+  unfold sendInteractions
+  simp [List.getD_eq_getElem?_getD, h]
+
 end Lane
 
 section ExtMul
